@@ -329,18 +329,15 @@ pub fn var_depth(e: &E) -> usize {
 }
 
 // ------------------------------------------ mirror of the constant folder
-/// what lib/src/compiler/ir/mod.rs would make of an integer expression:
-/// `Some(v)` = folded to the constant v.  `flags` collects, over the whole
-/// expression, whether some folded + - * chain differs from exact 64-bit
-/// arithmetic (finding 10) or leaves the i64 range (compile error), and
-/// whether i64::MIN is negated (compiler panic in the dev profile).
+/// what lib/src/compiler/ir/mod.rs makes of an integer expression: `Some(v)` = folded to the
+/// constant v (integer + - * with checked i64 arithmetic).  `flags` collects, over the whole
+/// expression, whether some constant + - * chain overflows (rejected by the compiler:
+/// NumberOutOfRange), whether i64::MIN is negated (compiler panic in the dev profile), and
+/// whether a folded chain leaves the range in which f64 is exact (regression for finding 10).
 #[derive(Default, Clone, Copy, Debug)]
-pub struct FoldFlags { pub inexact: bool, pub out_of_range: bool, pub neg_min: bool }
+pub struct FoldFlags { pub beyond_f64: bool, pub out_of_range: bool, pub neg_min: bool }
 pub type ConstScope = Vec<(usize, Option<i64>)>;
-enum Folded { No, Const(i64), Chain(Op, f64, i128, i64 /* value if finalized */) }
 fn additive(o: Op) -> bool { matches!(o, Op::Add | Op::Sub | Op::Mul) }
-fn apf(o: Op, a: f64, b: f64) -> f64 { match o { Op::Add => a + b, Op::Sub => a - b, _ => a * b } }
-fn api(o: Op, a: i128, b: i128) -> i128 { match o { Op::Add => a.wrapping_add(b), Op::Sub => a.wrapping_sub(b), _ => a.wrapping_mul(b) } }
 pub fn arith_i64(o: Op, a: i64, b: i64) -> Option<i64> {
     Some(match o {
         Op::Add => a.wrapping_add(b), Op::Sub => a.wrapping_sub(b), Op::Mul => a.wrapping_mul(b),
@@ -351,45 +348,36 @@ pub fn arith_i64(o: Op, a: i64, b: i64) -> Option<i64> {
         Op::BAnd => a & b, Op::BOr => a | b, Op::BXor => a ^ b,
     })
 }
-fn fin(f: &Folded) -> Option<i64> { match f { Folded::No => None, Folded::Const(v) => Some(*v), Folded::Chain(_, _, _, v) => Some(*v) } }
-fn fold_rec(e: &E, sc: &ConstScope, fl: &mut FoldFlags) -> Folded {
+fn fold_rec(e: &E, sc: &ConstScope, fl: &mut FoldFlags) -> Option<i64> {
     match e {
-        E::Int(z) => Folded::Const(*z),
-        E::Var(x) => match sc.iter().rev().find(|(n, _)| n == x) { Some((_, Some(v))) => Folded::Const(*v), _ => Folded::No },
-        E::Neg(a) => match fin(&fold_rec(a, sc, fl)) { Some(v) => { if v == i64::MIN { fl.neg_min = true } Folded::Const(v.wrapping_neg()) } None => Folded::No },
-        E::BitNot(a) => match fin(&fold_rec(a, sc, fl)) { Some(v) => Folded::Const(!v), None => Folded::No },
+        E::Int(z) => Some(*z),
+        E::Var(x) => match sc.iter().rev().find(|(n, _)| n == x) { Some((_, Some(v))) => Some(*v), _ => None },
+        E::Neg(a) => fold_rec(a, sc, fl).map(|v| { if v == i64::MIN { fl.neg_min = true } v.wrapping_neg() }),
+        E::BitNot(a) => fold_rec(a, sc, fl).map(|v| !v),
         E::Arith(o, a, b) => {
             let fa = fold_rec(a, sc, fl);
-            let fb = fin(&fold_rec(b, sc, fl));
-            if additive(*o) {
-                let left: Option<(f64, i128)> = match &fa {
-                    Folded::Chain(oa, acc, ex, _) if oa == o => Some((*acc, *ex)),
-                    other => fin(other).map(|v| (v as f64, v as i128)),
-                };
-                match (left, fb) {
-                    (Some((acc, ex)), Some(vb)) => {
-                        let acc2 = apf(*o, acc, vb as f64);
-                        let ex2 = api(*o, ex, vb as i128);
-                        if !(acc2 >= i64::MIN as f64 && acc2 <= i64::MAX as f64) { fl.out_of_range = true; return Folded::No; }
-                        let v = acc2 as i64;
-                        if v != ex2 as i64 || ex2 != (ex2 as i64) as i128 { fl.inexact = true; }
-                        Folded::Chain(*o, acc2, ex2, v)
+            let fb = fold_rec(b, sc, fl);
+            match (fa, fb) {
+                (Some(x), Some(y)) if additive(*o) => {
+                    let r = match o { Op::Add => x.checked_add(y), Op::Sub => x.checked_sub(y), _ => x.checked_mul(y) };
+                    match r {
+                        None => { fl.out_of_range = true; None }
+                        Some(v) => { if [x, y, v].iter().any(|t| t.unsigned_abs() > (1u64 << 53)) { fl.beyond_f64 = true } Some(v) }
                     }
-                    _ => Folded::No,
                 }
-            } else {
-                match (fin(&fa), fb, o) {
-                    (Some(x), Some(y), Op::BAnd | Op::BOr | Op::BXor) => Folded::Const(arith_i64(*o, x, y).unwrap()),
-                    (Some(x), Some(y), Op::Shl | Op::Shr) if y >= 0 => Folded::Const(arith_i64(*o, x, y).unwrap()),
-                    _ => Folded::No,
-                }
+                (Some(x), Some(y)) => match o {
+                    Op::BAnd | Op::BOr | Op::BXor => arith_i64(*o, x, y),
+                    Op::Shl | Op::Shr if y >= 0 => arith_i64(*o, x, y),
+                    _ => None,
+                },
+                _ => None,
             }
         }
-        _ => Folded::No,
+        _ => None,
     }
 }
 /// the constant the compiler computes for an integer expression, if it folds
-pub fn cfold(e: &E, sc: &ConstScope) -> Option<i64> { let mut fl = FoldFlags::default(); fin(&fold_rec(e, sc, &mut fl)) }
+pub fn cfold(e: &E, sc: &ConstScope) -> Option<i64> { let mut fl = FoldFlags::default(); fold_rec(e, sc, &mut fl) }
 pub fn fold_flags_of(e: &E, sc: &ConstScope) -> FoldFlags { let mut fl = FoldFlags::default(); let _ = fold_rec(e, sc, &mut fl); fl }
 
 // ---------------------------------------------------------------- generator
@@ -504,13 +492,12 @@ impl<'a> Gen<'a> {
             }
         }
     }
-    /// builds a op b, dropping b when the compiler would fold the chain inexactly
-    /// (main stream) or reject it
+    /// builds a op b, dropping b when the compiler would reject the constant chain (overflow)
     fn arith(&mut self, o: Op, a: E, b: E) -> E {
         let a2 = a.clone();
         let e = E::Arith(o, bx(a), bx(b));
         let fl = fold_flags_of(&e, &self.cscope());
-        if fl.out_of_range || fl.neg_min || (fl.inexact && self.stream != Stream::Fold) { return a2; }
+        if fl.out_of_range || fl.neg_min { return a2; }
         if matches!(o, Op::Shl | Op::Shr) {
             if let E::Arith(_, _, b) = &e { if let Some(v) = cfold(b, &self.cscope()) { if v < 0 { return a2; } } }
         }
